@@ -25,6 +25,8 @@ def cell_value(c):
         return c['q'] // 4 if c['q'] % 4 == 0 else c['q'] / 4
     if c['k'] == 'text':
         return ''.join(chr(x) for x in c['c'])
+    if c['k'] == 'bool':
+        return bool(c['b'])
     return None
 
 
@@ -59,8 +61,10 @@ def formulas(T, R):
             f'=SUMIFS({b},{a},{T},{c},">1")', f'=COUNTIFS({a},{T},{c},">1")', f'=SUMIFS({b},{c},">1",{a},{T})', f'=AVERAGEIFS({b},{c},">1",{a},{T})',
             f'=SUMIFS(B1:B{R - 1},{a},{T})', f'=COUNTIFS({a},{T},C1:C{R - 1},">1")', f'=AVERAGEIFS({b},{a},{T},C1:C{R + 1},">1")',
             # same number of rows but more columns: still a different size
-            f'=SUMIFS(B1:C{R},{a},{T})', f'=AVERAGEIFS(B1:C{R},{a},{T})', f'=COUNTIFS({a},{T},B1:C{R},">1")']
-NF = 15
+            f'=SUMIFS(B1:C{R},{a},{T})', f'=AVERAGEIFS(B1:C{R},{a},{T})', f'=COUNTIFS({a},{T},B1:C{R},">1")',
+            f'=COUNTIFS({c},">1",{a},{T})']
+NF = 16
+COUNT_SHAPES = {3, 6, 10, 14, 15}          # COUNTIFS shapes: GuardsSum does not apply to them
 
 
 def target(i):
@@ -74,6 +78,8 @@ def expected(rec, R):
         return [None] * NF
     col = rec['col']
     s_a = sum(cell_value(col[i - 1]) for i in sel if col[i - 1]['k'] == 'num')
+    if any(col[i - 1]['k'] == 'bool' for i in sel):
+        s_a = None          # two-argument SUMIF summing truth values: not pinned
     s_b = sum(target(i - 1) for i in sel)
     out = [s_a, s_b, s_b, len(sel), (s_b / len(sel)) if sel else 'ERR']
     if sel12 == [-1]:
@@ -82,6 +88,7 @@ def expected(rec, R):
         s12 = sum(target(i - 1) for i in sel12)
         out += [s12, len(sel12), s12, (s12 / len(sel12)) if sel12 else 'ERR']
     out += ['ERR', 'ERR', 'ERR', 'ERR', 'ERR', 'ERR']
+    out += [None if sel12 == [-1] else len(sel12)]
     return out
 
 
@@ -160,9 +167,15 @@ def _crit_job(args):
 
 def gen(run):
     R = 3
-    r = run.tlc('Gen_C12', ['INIT Init', 'NEXT Next', f'CONSTANT R = {R}', f'CONSTANT Reduced = {"TRUE" if run.quick else "FALSE"}'], workers=6, timeout=3000,
+    r = run.tlc('Gen_C12', ['INIT Init', 'NEXT Next', f'CONSTANT R = {R}', f'CONSTANT Reduced = {"TRUE" if run.quick else "FALSE"}', 'CONSTANT Bools = FALSE'], workers=6, timeout=3000,
                 heap='8g')
     recs = r.records
+    # truth values in criteria ranges: 1 / 0 / TRUE / FALSE / blank under the criteria TRUE, FALSE, 1, 0
+    rb = run.tlc('Gen_C12', ['INIT Init', 'NEXT Next', f'CONSTANT R = {R}', 'CONSTANT Reduced = FALSE', 'CONSTANT Bools = TRUE'], workers=4, timeout=3000, tag='Gen_C12_bools')
+    for rec in rb.records:
+        rec['ci'] += 1000
+    recs = recs + rb.records
+    run.exhaustive[f'criteria columns of {R} cells over 1, 0, TRUE, FALSE, blank x 11 criteria (TRUE / FALSE / 1 / 0) x spellings x 13 formula shapes'] = True
     run.exhaustive[f'criteria columns of {R} cells x 36 criteria x spellings x 12 formula shapes'] = True
     by = {}
     for rec in recs:
@@ -186,7 +199,7 @@ def gen(run):
                 run.evaluations -= 1
             seen = set()
             for (sp, j, form, exp, got) in bad:
-                devs = rec['g'][sp]
+                devs = sorted(set(rec['g'][sp]) | (set(rec.get('gsum', {}).get(sp, [])) if j not in COUNT_SHAPES else set()))
                 key = (sp, j if not devs else -1)
                 if key in seen and devs:
                     continue
@@ -306,11 +319,12 @@ def witnesses(run):
 
 def check(run):
     run.rule = ('criteria columns of 3 cells over {0, 3, 5, 7, -1, 2.5, x, X, apple, apply, b?, blank} x 36 criteria (6 operators x 3 numbers; = / <> x 9 texts and '
-                'wildcard patterns) enumerated by TLC with the selected positions (alone and with a fixed second pair) and the open findings per spelling; '
+                'wildcard patterns) enumerated by TLC with the selected positions (alone and with a fixed second pair, in either pair position) and the open findings per spelling; '
+                'columns over {1, 0, TRUE, FALSE, blank} x criteria TRUE / FALSE / 1 / 0 likewise; '
                 'SUMIF/SUMIFS/COUNTIFS/AVERAGEIFS in 12 formula shapes replayed by overrides; random longer columns with 1..3 pairs judged by Trace_C12. '
                 'One evaluation = one formula result; a case is non-trivial when the criterion selects a proper non-empty subset.')
     run.assumptions += ['ordering operators with a text operand, wildcards against blank cells, numeric-looking / calendar-word texts (dateutil clock hazard), '
-                        'booleans in criteria ranges, non-numeric AVERAGEIFS targets: out of scope', 'mis-sized ranges: an error value or a raised exception both count as "reported as an error"']
+                        'texts under a TRUE / FALSE criterion, two-argument SUMIF summing truth values, non-numeric AVERAGEIFS targets: out of scope', 'mis-sized ranges: an error value or a raised exception both count as "reported as an error"']
     inv = ['Complement', 'OrderingOnlyNumbers', 'NumberCriterionRejectsText', 'TextCriterionRejectsNumbers', 'PlainIsCaseInsensitiveEquality', 'WildcardLaws',
            'SelectionIsConjunction']
     run.tlc('MC_XlCriteria', ['INIT Init', 'NEXT Next'] + ['INVARIANT ' + i for i in inv], workers=4, timeout=900)
